@@ -15,8 +15,11 @@ THEOREMS = {
     'C08': ['C01_getter_exact', 'C02_setter_exact'],
     'C09': ['C09_accept_iff_valid', 'C09_field_accept_iff_valid'],
     'C10': ['C10_enum_accept_iff_valid', 'C10_exhaustive_claims_are_sound', 'C10_no_variant_is_unrepresentable'],
-    'C11': ['C02_setter_exact', 'C06_raw_value_exact', 'C06_new_with_raw_value_exact'],
-    'C12': ['C02_setter_exact'],
+    'C11': ['C11_no_state_above_bit_N', 'C11_rewrap_is_identity_on_reachable_states', 'C12_real_code_any_history',
+            'C12_run_obligations_give_setters_ok', 'C02_setter_exact', 'C06_raw_value_exact', 'C06_new_with_raw_value_exact'],
+    'C12': ['C12_last_write_wins', 'C12_last_write_is_the_last_covering_one', 'C12_untouched_bits_keep_initial_value',
+            'C12_disjoint_writes_commute', 'C12_getters_observe_the_state', 'C12_overlapping_fields_alias_coherently',
+            'C12_real_code_any_history', 'C12_run_obligations_give_setters_ok', 'C02_setter_exact'],
     'C16': ['C16_seval_total_profile_independent', 'C16_checked_ok_then_unchecked_same', 'C01_getter_exact',
             'C02_setter_exact'],
 }
